@@ -13,6 +13,7 @@ import Rl2tp.Proofs.SpecMsg
 import Rl2tp.Proofs.SpecBridge
 import Rl2tp.Proofs.Utf8
 import Rl2tp.Proofs.NonInterference
+import Rl2tp.Proofs.GenSizes
 namespace Rl2tp.C05
 open Spec
 
@@ -136,5 +137,26 @@ example : Spec.decode Opts.strict (readme.set 3 0x15) = none := by decide
 example : Spec.decode Opts.default [0x02, 0x20, 0, 9, 0, 7, 0, 9, 0xAA] =
     some (.data { prio := false, length := some 9, tunnelId := 7, sessionId := 9, nsnr := none, offset := none,
                   data := [0xAA] }, 9) := by decide
+
+/-! ### guards and sizes as the source has them now (re-read by bin/gentables on every run) -/
+
+/-- the source's AVP header size and fixed control header size are the model's: fewer octets than `Header::LENGTH` give
+    no record and exactly that many give one; a Length field below `FIXED_LENGTH` is refused and one equal to it accepted -/
+theorem source_header_sizes :
+    ((∀ n ∈ List.range (GenSizes.cc "HEADER_LENGTH"), (greedy : M Bytes DErr (List Res)) (GenSizes.zeros n) = .ok [] (GenSizes.zeros n)) ∧
+     (match (greedy : M Bytes DErr (List Res)) (GenSizes.zeros (GenSizes.cc "HEADER_LENGTH")) with | .ok [_] _ => true | _ => false) = true) ∧
+    ((∀ l ∈ List.range (GenSizes.cc "CONTROL_FIXED_LENGTH"),
+      (decode Opts.strict : M Bytes (List DErr) Msg) ([0x13, 0x20, 0, UInt8.ofNat l] ++ GenSizes.zeros 8)
+        = .err [.incompleteControlMessageHeader] []) ∧
+     (match (decode Opts.strict : M Bytes (List DErr) Msg) ([0x13, 0x20, 0, UInt8.ofNat (GenSizes.cc "CONTROL_FIXED_LENGTH")] ++ GenSizes.zeros 8) with
+      | .ok (.control c) [] => c.avps.isEmpty | _ => false) = true) :=
+  ⟨GenSizes.header_length_is_model, GenSizes.control_fixed_length_is_model⟩
+
+/-- the version the source's decoder insists on by default (`PROTOCOL_VERSION`) is the model's -/
+theorem source_protocol_version :
+    ∀ v ∈ List.range 16, v ≠ GenSizes.cc "PROTOCOL_VERSION" →
+      (decodeDefault : M Bytes (List DErr) Msg) ([0x13, UInt8.ofNat (16 * v), 0, 12] ++ GenSizes.zeros 8)
+        = .err [.invalidVersion (UInt8.ofNat v)] ([0, 12] ++ GenSizes.zeros 8) :=
+  GenSizes.protocol_version_is_model.1
 
 end Rl2tp.C05
